@@ -7,10 +7,26 @@
    under output.reverseAttributes) while keeping the first position; values appear verbatim between the
    configured quotes (braces for expressions), a name without value gets an empty value, boolean
    attributes expand to name="name" or the compact form, implied attributes without value are dropped,
-   names are mapped through markup.attributes. *)
+   names are mapped through markup.attributes.
+
+   What is proved for ALL inputs: the merge rules (C03_merge_...), the output decision table (C03_attr_out_...,
+   C03_implied_dropped), and -- character level, over the written grammar stated further down -- the parse of
+   every element's text into exactly its written mentions (C03_element_attributes_text), the whole pipeline
+   for one element (C03_element_markup_parse, C03_expand_element_text: expand = `<name` + merged mentions
+   through the output table + `>` ...), and for whole flat statements e1 op e2 ... (C03_statement_markup_parse:
+   every place of the resolved tree carries its own element's merged mentions; C03_statement_expand: the
+   output with formatting off).  Elements are parser blocks of C01 (C03_element_is_block / _gblock /
+   _group_unit).
+   Not covered by a theorem (correspondence + oracles of harness/props/c03.py only): `$` numbering and
+   `${..}` fields inside names and values, a backslash outside quotes / braces, bare quoted attributes
+   `["x"]`, value-less shorthands (`a.`), the jsx shorthand `.{e}`, names that are snippets / lorem / label
+   (snippet resolution: C14), statements with groups or repeaters at text level (token level: C01/C02),
+   the haml / pug / slim formatters (C15) and the line layout with formatting on (C12). *)
 From Coq Require Import String.
 From Emmet Require Import lib.Base lib.StrLit model.MarkupTokenizer model.MarkupParser model.MarkupConvert
-     model.MarkupResolve model.OutStream model.FormatHtml proofs.AttrProofs proofs.AttrParseProofs.
+     model.MarkupResolve model.OutStream model.FormatHtml proofs.AttrProofs proofs.AttrParseProofs
+     proofs.ParserSpine proofs.ParserGroups proofs.TextSpec proofs.AttrText proofs.AttrTextParse
+     proofs.AttrTextConvert proofs.AttrTextFlat proofs.TextProofs model.MarkupExpand proofs.AttrTextExpand proofs.AttrTextStmt proofs.AttrTextRender.
 
 (* merging: for ALL attribute lists the code's loop (dictionary lookup + in-place update) computes
    [merge_spec]: every name once at its first position; class values joined by one space in written
@@ -86,9 +102,11 @@ Print Assumptions C03_attr_out_text.
    non-empty run of literal/number/field tokens; quoted bodies any tokens but the closing quote;
    expression bodies any tokens but expression brackets), separated by white space, between `[` and `]`,
    attribute_set returns exactly the written attributes in order and consumes through the `]`.
-   Missing: the character level (that the tokenizer produces such token runs, with `.`/`!` inside names
-   kept literal), the `#id` / `.class` shorthands of element(), and the stringification of the value
-   tokens by convert_attribute; these are covered by the correspondence and the verbatim oracle. *)
+   This token-level theorem stays as the building block (it also covers token runs the character-level
+   grammar below excludes: numbering / field tokens in names and values, arbitrary white space, bare
+   quoted attributes).  The character level, the `#id` / `.class` shorthands of element() and the
+   stringification by convert_attribute are proved in C03_element_attributes_text below; what is still
+   open for a full attr_parse_roundtrip is named there. *)
 Theorem C03_attr_parse_roundtrip_partial :
   forall (open : token) (lead : list token) (l : list (wattr * list token)) (close : token) (after : list token),
     is_bracket open (Some BAttr) (Some true) = true ->
@@ -98,6 +116,257 @@ Theorem C03_attr_parse_roundtrip_partial :
     ASOk (map (fun p => wparsed (fst p)) l) (length (open :: lead ++ render l) + 1).
 Proof. exact attribute_set_reads. Qed.
 Print Assumptions C03_attr_parse_roundtrip_partial.
+
+(* ---------------------------------------------------------------------------------------------------
+   CHARACTER LEVEL (proofs/AttrText*.v).  The written grammar, as data:
+     selem  = name + list of parts + optionally a text `{T}` + optionally the self-closing mark `/`;
+     part   = `#v` | `.v` (the operator may be repeated: `..v` is a "multiple" mention, looked up as `class*`
+              in markup.attributes) | `[ lead a1 w1 a2 w2 ... an wn ]` with any white space lead / wi (blanks,
+              tabs, nbsp, line breaks), at least one character between two attributes; [spaced l] = the
+              usual single spaces;
+     sattr  = optional `!` (implied) + name + optional `.` (boolean) + value;
+     value  = nothing | `=` | `=v` | `='q'` / `="q"` | `={e}`.
+   Alphabets ([selem_ok]): element name and shorthand values are non-empty runs of name characters
+   (letters, digits, `_ - : !`); an attribute name is any non-empty run over the unquoted-safe alphabet
+   [asafe] = every character except  \ $ = white space quotes brackets  (so `. # > + ^ * / @ :` and
+   unicode are in; it neither ends in `.` nor starts with `!` unless the flag is written); an unquoted
+   value is a non-empty run over [asafe] plus parentheses that balance ([uq_ok]); a quoted value is ANY
+   text in which the quote itself, `$` and `\` occur only escaped by `\` ([qpayload]: brackets, braces,
+   operators, the other quote, white space, line breaks free); an expression value is any text whose
+   braces balance modulo escapes and whose `$` are escaped ([bal 0]); the text `{T}` likewise (C04).
+   [elem_text e] is the text, [written_mentions e] the list of mentions it denotes (SPEC, AttrTextConvert):
+   `#v` -> id=v raw, `.v` -> class=v raw (multiple when the operator is repeated), n -> no value, n= -> no value, n=v -> [v] raw,
+   n='q' -> [unescape q] single (n="q" double; nothing for an empty q), n={e} -> [unescape e] expression,
+   flags boolean / implied as written. *)
+
+(* (0) the tokenizer on the text of such an element yields exactly the layout [elem_toks] *)
+Theorem C03_element_tokens_text :
+  forall e : selem, selem_ok e -> tokenize (elem_text e) = TOk (elem_toks 0 e).
+Proof. exact tokenize_elem. Qed.
+Print Assumptions C03_element_tokens_text.
+
+(* (1) element_attributes_text.  For EVERY element of the grammar -- any number and order of `#id`,
+   `.class` and `[ ... ]` parts, any mix of value forms -- tokenize + parse + convert of its text gives
+   ONE node, named as written, without children, whose value is the text `{T}` with escapes resolved
+   ([elem_text_value]: nothing when no text is written) and whose attribute list (before merging) is
+   exactly the written mentions in order: name, value, value type (raw / single / double / expression)
+   and boolean / implied flags.  ([jsx_ok]: under jsx a Capitalized name followed by `.Capitalized` is a
+   component path, so the name must not start with a capital there.)
+   Outside the stated grammar, hence not covered by this theorem (covered by the correspondence and the
+   oracle of harness/props/c03.py): `$` numbering / `${..}` fields in names and values, a backslash
+   outside quotes and braces, bare quoted attributes `["x"]`, empty
+   shorthands (`a.`), the jsx shorthand `.{e}`. *)
+Theorem C03_element_attributes_text :
+  forall (jsx : bool) (env : cenv) (max_repeat : option N) (e : selem),
+    selem_ok e -> jsx_ok jsx e -> ce_text env = WNone ->
+    parse_abbr jsx env max_repeat (elem_text e) =
+      Ok [ANode (Some (se_name e)) (elem_text_value e) None (attrs_opt (written_mentions e)) [] (se_close e)].
+Proof. exact element_attributes_text. Qed.
+Print Assumptions C03_element_attributes_text.
+
+(* ... composed with C03_merge_attributes: after merging, the node carries [merge_spec] of the mentions *)
+Theorem C03_element_merged_text :
+  forall (rev_attrs : bool) (e : selem),
+    merge_attributes rev_attrs (an_attrs (elem_node e)) =
+      match written_mentions e with [] => None | m => Some (merge_spec rev_attrs [] m) end.
+Proof. exact element_merged_text. Qed.
+Print Assumptions C03_element_merged_text.
+
+(* (3) the tokens of such an element form a parser block in the sense of C01: element() consumes exactly
+   them before `>`, `+`, `^`, `)` or the end, and returns the written attributes -- so these elements
+   may stand wherever C01_parse_denote_partial (flat statements) and C01_parse_groups (groups, any
+   nesting) ask for [block_ok] / [gblock_ok] *)
+Theorem C03_element_is_gblock :
+  forall (jsx : bool) (pos : nat) (e : selem),
+    selem_ok e -> jsx_ok jsx e -> gblock_ok jsx (elem_toks pos e) (elem_leaf pos e).
+Proof. exact elem_gblock. Qed.
+Print Assumptions C03_element_is_gblock.
+
+Theorem C03_element_is_block :
+  forall (jsx : bool) (pos : nat) (e : selem),
+    selem_ok e -> jsx_ok jsx e -> block_ok jsx (elem_toks pos e) (elem_leaf pos e).
+Proof. exact elem_block. Qed.
+Print Assumptions C03_element_is_block.
+
+(* ... hence a unit of the group grammar of C01_parse_groups: such elements may stand inside parenthesised,
+   repeated, nested groups (token level; example below) *)
+Theorem C03_element_is_group_unit :
+  forall (jsx : bool) (pos : nat) (e : selem),
+    selem_ok e -> jsx_ok jsx e -> unit_toks jsx (GE (elem_leaf pos e)) (elem_toks pos e).
+Proof. exact elem_group_unit. Qed.
+Print Assumptions C03_element_is_group_unit.
+
+(* ... and the corollary at text level: a flat statement e1 op1 e2 ... en (op = `>`, `+`, `^`...) of such
+   elements tokenizes and parses; the parsed tree has the depth list the operators denote ([edenote]:
+   `>` one deeper, `+` same level, each `^` one up), and the element at every place converts to ONE
+   node carrying exactly the mentions written on it *)
+Theorem C03_statement_attributes_text :
+  forall (jsx : bool) (env : cenv) (xs : list (selem * sop)),
+    Forall (fun x => selem_ok (fst x) /\ jsx_ok jsx (fst x)) xs ->
+    exists toks els,
+      tokenize (stmt_text xs) = TOk toks /\ parse jsx toks = POk els /\
+      Forall2 (fun dl de => fst dl = fst de /\
+                            forall st, conv_stmt env (leaf_node (snd dl)) st = Ok ([elem_node (snd de)], st))
+              (preL 0 els) (edenote 0 xs).
+Proof. exact statement_attributes_text. Qed.
+Print Assumptions C03_statement_attributes_text.
+
+(* (4) the WHOLE pipeline on one element.  markup.parse -- tokenize, parse, convert, snippet resolution,
+   transform -- of the text of an element whose name is neither a snippet nor `lorem...` yields the one
+   node carrying [merge_spec] of the written mentions ...  ([mc_bem cfg = false]: BEM off -- with
+   bem.enabled the BEM addon rewrites class values (`-` / `_` prefixes, block names taken from the
+   ancestors), which is not the subject of C03; the same hypothesis stands in (4)-(6).  [xsl_rule_applies]: under the xsl syntax an
+   xsl:variable / xsl:with-param WITH content loses its `select` attribute -- the xsl addon, excluded.) *)
+Theorem C03_element_markup_parse :
+  forall (cfg : mconfig) (e : selem),
+    selem_ok e -> jsx_ok (mc_jsx cfg) e -> mc_text cfg = WNone ->
+    assoc_str (se_name e) (mc_snippets cfg) = None -> match_lorem (se_name e) = LNo ->
+    xsl_rule_applies cfg e = false -> mc_bem cfg = false ->
+    markup_parse cfg (elem_text e) =
+      Ok [ANode (Some (se_name e)) (elem_text_value e) None
+                (match written_mentions e with [] => None | m => Some (merge_spec (mc_reverse_attrs cfg) [] m) end)
+                [] (se_close e)].
+Proof. exact markup_parse_elem. Qed.
+Print Assumptions C03_element_markup_parse.
+
+(* ... and expand() writes it as  <name attr...>text</name>  -- or, for an element marked `/` without text,
+   <name attr... />  with ` /`, `/` or nothing before `>` by output.selfClosingStyle ([leaf_tail]) : the attributes are those of [merge_spec] on the
+   written mentions (first mention fixes the position, class values joined, last/first value wins), each
+   written by the decision table [attr_out_spec] of C03_attr_out_table (quotes / braces, boolean
+   expansion or compact form, implied dropped, tabstop for an empty value, names through
+   markup.attributes and attributeCase).  For ALL elements of the grammar, all configurations with:
+   an HTML-family syntax (html, xml, xsl, jsx, vue ...: the haml / slim / pug formatters are C15), no
+   comment filter, no leaf formatting for this element, and values free of line breaks (a line break
+   inside a value is re-indented by the output stream: C04_text_not_reparsed / C12); the text, if any,
+   is free of line breaks and does not start with a block-level tag ([value_inline]: such text is
+   put on lines of its own). *)
+Theorem C03_expand_element_text :
+  forall (x : xconfig) (e : selem),
+    let m := xc_m x in
+    let c := xc_o x in
+    selem_ok e -> jsx_ok (mc_jsx m) e -> mc_text m = WNone ->
+    assoc_str (se_name e) (mc_snippets m) = None -> match_lorem (se_name e) = LNo ->
+    xsl_rule_applies m e = false -> mc_bem m = false ->
+    html_family (mc_syntax m) -> oc_comment_enabled c = false ->
+    oc_format_leaf c = false -> mem_str (se_name e) (oc_format_force c) = false ->
+    let attrs := merge_spec (mc_reverse_attrs m) [] (written_mentions e) in
+    Forall (fun a => form_nl_free (attr_out_spec c a)) attrs ->
+    value_inline c (elem_text_value e) ->
+    expand_markup_str x (elem_text e) =
+      Ok (c_lt :: tag_name c (se_name e) ++ attrs_text_out c attrs
+          ++ leaf_tail c (tag_name c (se_name e)) (se_close e) (elem_text_value e)).
+Proof. exact expand_element_text. Qed.
+Print Assumptions C03_expand_element_text.
+
+(* (5) "for EVERY element ... of exactly that element": a whole flat statement through markup.parse.
+   For the text  e1 op1 e2 ... en  of elements of the grammar whose names are neither snippets nor
+   lorem / label / (under xsl) xsl:variable, xsl:with-param ([plain_name]: these trigger the snippet,
+   lorem, label and xsl addons), the resolved tree has -- in preorder, as (depth, node without its
+   children) -- exactly the places the operators denote ([edenote]), and the node at the place of
+   element e carries e's own name, text and the [merge_spec] of the mentions written on e: no attribute
+   is lost, duplicated or moved to another element.  ([apreNL] determines the tree.) *)
+Theorem C03_statement_markup_parse :
+  forall (cfg : mconfig) (xs : list (selem * sop)),
+    Forall (fun x => selem_ok (fst x) /\ jsx_ok (mc_jsx cfg) (fst x) /\ plain_name cfg (fst x)) xs ->
+    mc_text cfg = WNone -> mc_bem cfg = false ->
+    exists forest,
+      markup_parse cfg (stmt_text xs) = Ok forest /\
+      apreNL 0 forest =
+        map (fun x => (fst x, ANode (Some (se_name (snd x))) (elem_text_value (snd x)) None
+                                    (match written_mentions (snd x) with
+                                     | [] => None
+                                     | m => Some (merge_spec (mc_reverse_attrs cfg) [] m)
+                                     end) [] (se_close (snd x))))
+            (edenote 0 xs).
+Proof. exact statement_markup_parse. Qed.
+Print Assumptions C03_statement_markup_parse.
+
+(* ... the preorder list pins the forest down: two forests with the same list are equal *)
+Theorem C03_preorder_determines_forest :
+  forall (l1 l2 : list anode) (d : nat), apreNL d l1 = apreNL d l2 -> l1 = l2.
+Proof. exact apreNL_inj. Qed.
+Print Assumptions C03_preorder_determines_forest.
+
+(* (6) ... and expand() of the whole statement with formatting off (output.format = false; with it on, the
+   same tags are laid out on indented lines: C12): the output is the forest of (5) written as nested
+   tags ([render_node]: `<name` + the attributes through [attr_out_spec] + `>` + the element's text +
+   its children in order + `</name>`), every element once, in document order.  [elem_out_ok]: no leaf
+   formatting forced for the name, attribute values and text free of line breaks, text not starting
+   with a block-level tag. *)
+Theorem C03_statement_expand :
+  forall (x : xconfig) (xs : list (selem * sop)),
+    let m := xc_m x in
+    let c := xc_o x in
+    Forall (fun p => selem_ok (fst p) /\ jsx_ok (mc_jsx m) (fst p) /\ plain_name m (fst p)) xs ->
+    mc_text m = WNone -> mc_bem m = false -> html_family (mc_syntax m) ->
+    oc_format c = false -> oc_comment_enabled c = false -> oc_format_leaf c = false ->
+    Forall (fun p => elem_out_ok m c (fst p)) xs ->
+    exists forest,
+      expand_markup_str x (stmt_text xs) = Ok (render_forest c forest) /\
+      apreNL 0 forest = map (fun p => (fst p, resolved_node (mc_reverse_attrs m) (snd p))) (edenote 0 xs).
+Proof. exact statement_expand. Qed.
+Print Assumptions C03_statement_expand.
+
+(* non-vacuity of (4): a.x[b=f(1) c. !d class='y z']#i{5 > 3 \{ok\}}  expands to
+   <a class="x y z" b="f(1)" c="c" id="i">5 > 3 {ok}</a> *)
+Example C03_expand_nonvacuous :
+  let x := mkX (mkMConfig (S "html") [] [] WNone None None false None [] false false false [] [] None)
+               (mkOconfig (mkOfmt [] [] []) [] [] (S "double") true false [] [] 0 false [] (S "html") [] false [] [] []
+                          false None None) in
+  let e := mkSElem (S "a")
+             [PClass 0 (S "x");
+              PSet [] (spaced [mkSAttr false (S "b") false (SUnq (S "f(1)")); mkSAttr false (S "c") true SNone;
+                    mkSAttr true (S "d") false SNone; mkSAttr false (S "class") false (SQuo true (S "y z"))]);
+              PId 0 (S "i")] (Some (S "5 > 3 \{ok\}")) false in
+  selem_ok e /\ html_family (mc_syntax (xc_m x)) /\
+  Forall (fun a => form_nl_free (attr_out_spec (xc_o x) a)) (merge_spec false [] (written_mentions e)) /\
+  value_inline (xc_o x) (elem_text_value e) /\
+  elem_text e = S "a.x[b=f(1) c. !d class='y z']#i{5 > 3 \{ok\}}" /\
+  expand_markup_str x (elem_text e) = Ok (S "<a class=""x y z"" b=""f(1)"" c=""c"" id=""i"">5 > 3 {ok}</a>").
+Proof.
+  cbv zeta. split; [cbn; grammar_ok|].
+  split; [repeat split|]. split; [vm_compute; repeat constructor|]. split; [vm_compute; repeat constructor|].
+  split; vm_compute; reflexivity.
+Qed.
+
+(* non-vacuity of the character-level theorems: a#x.y[!p. q= r=a*3/4>.# f=g(1) s.='a \' ] (c)' t={ x{y} }]..z *)
+Example C03_text_nonvacuous :
+  let e := mkSElem (S "a")
+             [PId 0 (S "x"); PClass 0 (S "y");
+              PSet [] (spaced [mkSAttr true (S "p") true SNone; mkSAttr false (S "q") false SEmpty;
+                    mkSAttr false (S "r") false (SUnq (S "a*3/4>.#")); mkSAttr false (S "f") false (SUnq (S "g(1)"));
+                    mkSAttr false (S "s") true (SQuo true (S "a \' ] (c)")); mkSAttr false (S "t") false (SBrace (S " x{y} "))]);
+              PClass 1 (S "z")] None false in
+  selem_ok e /\ jsx_ok false e /\
+  elem_text e = S "a#x.y[!p. q= r=a*3/4>.# f=g(1) s.='a \' ] (c)' t={ x{y} }]..z" /\
+  written_mentions e =
+    [mkAAttr (Some (S "id")) (Some [VStr (S "x")]) VRaw false false false;
+     mkAAttr (Some (S "class")) (Some [VStr (S "y")]) VRaw false false false;
+     mkAAttr (Some (S "p")) None VRaw true true false;
+     mkAAttr (Some (S "q")) None VRaw false false false;
+     mkAAttr (Some (S "r")) (Some [VStr (S "a*3/4>.#")]) VRaw false false false;
+     mkAAttr (Some (S "f")) (Some [VStr (S "g(1)")]) VRaw false false false;
+     mkAAttr (Some (S "s")) (Some [VStr (S "a ' ] (c)")]) VSingle true false false;
+     mkAAttr (Some (S "t")) (Some [VStr (S " x{y} ")]) VExpr false false false;
+     mkAAttr (Some (S "class")) (Some [VStr (S "z")]) VRaw false false true].
+Proof.
+  cbv zeta. split; [|split; [left; reflexivity|split; vm_compute; reflexivity]].
+  cbn; grammar_ok.
+Qed.
+
+(* ... and of the statement theorem: a.x>b[c=1]{t>u}+d#e/ satisfies its hypothesis *)
+Example C03_statement_nonvacuous :
+  let xs := [(mkSElem (S "a") [PClass 0 (S "x")] None false, SChild);
+             (mkSElem (S "b") [PSet [] (spaced [mkSAttr false (S "c") false (SUnq (S "1"))])] (Some (S "t>u")) false, SSibling);
+             (mkSElem (S "d") [PId 0 (S "e")] None true, SSibling)] in
+  let cfg := mkMConfig (S "html") [(S "a", S "a[href]")] [] WNone None None false None [] false false false [] [] None in
+  Forall (fun x => selem_ok (fst x) /\ jsx_ok false (fst x)) xs /\ stmt_text xs = S "a.x>b[c=1]{t>u}+d#e/" /\
+  Forall (fun x => plain_name cfg (fst x)) (tl xs).
+Proof.
+  cbv zeta. split; [|split; [vm_compute; reflexivity|]].
+  - cbn. grammar_ok. all: left; reflexivity.
+  - repeat constructor.
+Qed.
 
 (* non-vacuity: .x [b=1] .y [b=2] merges to class="x y" b=2 (b=1 under reverse), class first *)
 Example C03_nonvacuous :
@@ -131,3 +400,35 @@ Proof.
   - exists false. repeat split.
   - intro H. exfalso. apply H. reflexivity.
 Qed.
+
+(* non-vacuity of (5), (6): a.x>b[c=1]{t>u}+d#e/ with formatting off (here `a` is not a snippet;
+   selfClosingStyle html writes the marked element as <d id="e">) *)
+Example C03_statement_expand_nonvacuous :
+  let x := mkX (mkMConfig (S "html") [] [] WNone None None false None [] false false false [] [] None)
+               (mkOconfig (mkOfmt [] [] []) [] [] (S "double") false false [] [] 0 false [] (S "html") [] false [] [] []
+                          false None None) in
+  let xs := [(mkSElem (S "a") [PClass 0 (S "x")] None false, SChild);
+             (mkSElem (S "b") [PSet [] (spaced [mkSAttr false (S "c") false (SUnq (S "1"))])] (Some (S "t>u")) false, SSibling);
+             (mkSElem (S "d") [PId 0 (S "e")] None true, SSibling)] in
+  Forall (fun p => selem_ok (fst p) /\ jsx_ok false (fst p) /\ plain_name (xc_m x) (fst p)) xs /\
+  Forall (fun p => elem_out_ok (xc_m x) (xc_o x) (fst p)) xs /\
+  expand_markup_str x (stmt_text xs) = Ok (S "<a class=""x""><b c=""1"">t>u</b><d id=""e""></a>").
+Proof.
+  cbv zeta. split; [|split; [|vm_compute; reflexivity]].
+  - cbn. grammar_ok. all: try (left; reflexivity).
+  - repeat constructor.
+Qed.
+
+(* non-vacuity of the group corollary: `(a.x>b[c=1])*2+d##e` as tokens satisfies [gflat], so C01_parse_groups applies *)
+Example C03_group_nonvacuous :
+  let a := mkSElem (S "a") [PClass 0 (S "x")] None false in
+  let b := mkSElem (S "b") [PSet [] (spaced [mkSAttr false (S "c") false (SUnq (S "1"))])] None false in
+  let d := mkSElem (S "d") [PId 1 (S "e")] None false in
+  let br o p := mkTok (TBracket o BGroup) p (p + 1) in
+  let op o p := mkTok (TOperator o) p (p + 1) in
+  let rp := mkTok (TRepeater 2 0 false) 13 15 in
+  gflat false
+    [(GG [(GE (elem_leaf 1 a), SChild); (GE (elem_leaf 5 b), SSibling)] (Some (mkRep 2 0 false)), SSibling);
+     (GE (elem_leaf 16 d), SSibling)]
+    ((br true 0 :: (elem_toks 1 a ++ [op OpChild 4] ++ elem_toks 5 b) ++ br false 12 :: [rp]) ++ [op OpSibling 15] ++ elem_toks 16 d).
+Proof. exact group_of_attribute_elements. Qed.
